@@ -3,7 +3,7 @@
  *    object of the slice gets a label in range that minimises the squared distance to the centroids (first minimum),
  *    objects outside the slice keep their label, worker == single-thread; sqrt enters by contract as a strictly
  *    increasing function (instantiated as the identity), so the routine may compare distances or their squares;
- *  - centroid update (IEEE mode on exact instances: small integer cells, clusters of 1, 2 or 4 objects, so every
+ *  - centroid update (IEEE mode on exact instances: small integer cells, clusters of 1 or 2 objects, so every
  *    mathematically equivalent evaluation returns the same double): each centroid is the mean of the objects carrying
  *    its label; a cluster without objects takes the coordinates of an in-range object chosen by the generator. */
 #include "vc.h"
